@@ -106,6 +106,14 @@ def source_program(item, res, pi):
         P["s0"] = {k: v for k, v in P["s0"].items()}
         return P
     if "parsed" not in res:
+        if "parsed_cont" in res:
+            # Normal / Uniform / Laplace draws: moment-matched finite laws (absyn.prog_cont); None if the program is not
+            # affine in its continuous draws or a condition reads them
+            try:
+                degs = [sum(e for _v, e in absyn.mono_of(g)[0][1]) for g in (res.get("goals_used") or [])]
+                return absyn.prog_cont(res["parsed_cont"][pi], order=5 if max(degs + [0]) > 3 else 3)
+            except (absyn.NotAffine, ValueError, KeyError, ZeroDivisionError):
+                return None
         return None
     return absyn.prog(res["parsed"][pi])
 
@@ -226,6 +234,12 @@ def b_moments(ctx, key="goals", kind="mom"):
         if any(v not in P["vars"] for v, _ in poly[0][1]):
             ctx.note("goal_var_not_in_source")
             continue
+        if "tainted" in P:
+            # continuous draws were replaced by laws with the same moments up to order 5
+            if sum(e for v, e in poly[0][1] if v in P["tainted"]) > P.get("order", 5):
+                ctx.note("goal_degree_beyond_surrogate")
+                continue
+            ctx.note("claims_on_moment_matched_surrogates")
         for n, val in enumerate(go["values"][ctx.pi][:ctx.N + 1]):
             cl, why = val_claims("mom", val, {"pi": ctx.src, "poly": poly, "tag": g})
             if cl is None:
